@@ -95,6 +95,7 @@ func runDLHistory(hi int, h hmap) {
 		ue.DLCount.Set(uint16(p>>8), uint8(p))
 	}
 	drops, wraps, delivered, excluded := 0, 0, 0, 0
+	corrupted := 0
 	// messages the UE has recovered stay what they were: the last few are looked at again after
 	// every later delivery (a recovered message that shares memory with a receive buffer changes
 	// under the UE's feet when the next message arrives)
@@ -148,6 +149,19 @@ func runDLHistory(hi int, h hmap) {
 		if b, _ := op["drop"].(bool); b && sht != 0 && ((sht != 3 && sht != 4) || forced) {
 			drops++
 			continue // lost on the way: the UE never sees this sequence number
+		}
+		if cb, ok := op["corrupt_mac"].(float64); ok && sht != 0 {
+			// the message is damaged on the way: one bit of its MAC. Whatever the UE makes of it - the
+			// pinned code prints the mismatch and goes on, a stricter one would discard it - the messages
+			// that follow must be recovered with the AMF's COUNT; this one is not judged.
+			bad := append([]byte{}, pkg...)
+			bad[2+int(cb)%4] ^= 1 << uint(int(cb)/4%8)
+			func() {
+				defer func() { recover() }()
+				tglib.NASDecode(ue, libnas.GetSecurityHeaderType(bad), bad)
+			}()
+			corrupted++
+			continue
 		}
 		var got *libnas.Message
 		if str(op, "via") == "ngap" {
@@ -204,5 +218,5 @@ func runDLHistory(hi int, h hmap) {
 		}
 	}
 	_ = bytes.Equal
-	w.Log(world.Event{Ev: "hist", I: hi, UE: -1, Info: hmap{"drops": drops, "wraps256": wraps, "delivered": delivered, "excluded": excluded}})
+	w.Log(world.Event{Ev: "hist", I: hi, UE: -1, Info: hmap{"drops": drops, "wraps256": wraps, "delivered": delivered, "excluded": excluded, "corrupted": corrupted}})
 }
